@@ -5,7 +5,7 @@ from ..capability import Capability
 
 from ..basetypes import ErrorType, PropertyIdentifier
 from ..primitivedata import Atomic, Null, Unsigned
-from ..constructeddata import Any, Array, ArrayOf, List
+from ..constructeddata import Any, Array, ArrayOf, Choice, List
 
 from ..apdu import SimpleAckPDU, ReadPropertyACK, ReadPropertyMultipleACK, \
     ReadAccessResult, ReadAccessResultElement, ReadAccessResultElementChoice
@@ -111,11 +111,10 @@ class ReadWritePropertyServices(Capability):
             if obj.ReadProperty(apdu.propertyIdentifier, apdu.propertyArrayIndex) is None:
                 raise PropertyError(apdu.propertyIdentifier)
 
-            # get the datatype, special case for null
-            if apdu.propertyValue.is_application_class_null():
+            # get the datatype, special case for null unless it is one of the choices
+            datatype = obj.get_datatype(apdu.propertyIdentifier)
+            if apdu.propertyValue.is_application_class_null() and not issubclass(datatype, Choice):
                 datatype = Null
-            else:
-                datatype = obj.get_datatype(apdu.propertyIdentifier)
             if _debug: ReadWritePropertyServices._debug("    - datatype: %r", datatype)
 
             # special case for array parts, others are managed by cast_out
